@@ -2,7 +2,10 @@ package props
 
 import (
 	"fmt"
+	"github.com/hashicorp/yamux"
+	"io"
 	"net"
+	"simworld/shim/simnet"
 	"strconv"
 	"strings"
 	"sync"
@@ -222,6 +225,20 @@ func init() {
 			for _, ru := range []string{"haa", "had", "hda", "hdd", "paa", "pad", "pda", "pdd"} {
 				out = append(out, sp("C06", "fixed-reuse/"+ru, seed, P("fixed", "1", "dir", "h", "ord", "a", "gap", "0", "reuse", ru)))
 			}
+			for _, cm := range []string{"dial-first", "accept-first"} {
+				nv := 4
+				if tier == "thorough" {
+					nv = 100
+				}
+				for v := 0; v < nv; v++ {
+					s := sp("C06", fmt.Sprintf("component/%s/%d", cm, v), seed+uint64(v)*7919, P("component", cm))
+					if v > 0 {
+						s.HotPermille, s.DelayClass = 60, "tiny"
+						s.Focus = "mux_broker.go"
+					}
+					out = append(out, s)
+				}
+			}
 			for _, rt := range []string{"hd", "pd", "ha", "pa"} {
 				out = append(out, sp("C06", "fixed-retry/"+rt, seed, P("fixed", "1", "dir", "h", "ord", "a", "gap", "0", "retry", rt)))
 			}
@@ -270,9 +287,130 @@ func init() {
 				runBrokerBurst(r, h.Conf{Proto: "netrpc"}, "mux")
 				return
 			}
+			if r.Spec.P("component", "") != "" {
+				runC06Component(r)
+				return
+			}
 			runBrokerPairs(r, h.Conf{Proto: "netrpc"}, "mux")
 		},
 	})
+}
+
+// runC06Component: two real MuxBrokers on a yamux session pair the harness
+// builds itself over a simulated Unix socket, one end with a short
+// StreamCloseTimeout - a peer that RESETS a stream it gave up on (go-plugin's
+// own sessions use yamux's default of five minutes, so through Client/Serve a
+// half-closed stream is never reset inside the pending window). History: the
+// impatient peer dials, writes the ID and gives up; the accept that picks the
+// stream up fails writing the ack; then the same ID is established again with
+// accept and dial straddling the instant at which the failed attempt's expiry
+// timer fires.
+func runC06Component(r *h.Run) {
+	w := r.W
+	mode := r.Spec.P("component", "dial-first")
+	ctx := "broker=mux component retry-after-failed-ack order=" + mode
+	ln, err := simnet.Listen("unix", "/tmp/component.sock")
+	if err != nil {
+		r.Violate("setup", "component listen", err.Error())
+		return
+	}
+	accepted := make(chan simnet.Conn, 1)
+	go k.Trap(func() {
+		c, err := ln.Accept()
+		if err == nil {
+			accepted <- c
+		}
+	})
+	c1, err := simnet.Dial("unix", "/tmp/component.sock")
+	if err != nil {
+		r.Violate("setup", "component dial", err.Error())
+		return
+	}
+	c2 := <-accepted
+	cfgA, cfgB := yamux.DefaultConfig(), yamux.DefaultConfig()
+	cfgA.LogOutput, cfgB.LogOutput = io.Discard, io.Discard
+	cfgA.StreamCloseTimeout = 50 * time.Millisecond
+	sa, err1 := yamux.Client(c1, cfgA)
+	sb, err2 := yamux.Server(c2, cfgB)
+	if err1 != nil || err2 != nil {
+		r.Violate("setup", "component yamux", fmt.Sprint(err1, err2))
+		return
+	}
+	a, b := plugin.NewMuxBrokerForSim(sa), plugin.NewMuxBrokerForSim(sb)
+	go k.Trap(a.Run)
+	go k.Trap(b.Run)
+	defer sa.Close()
+	defer sb.Close()
+	id := uint32(7)
+	pairOK := func(tag string, id uint32, acceptAt, dialAt time.Duration) {
+		var wg sync.WaitGroup
+		var aerr, derr error
+		var got string
+		t0 := w.Now()
+		inj := w.InjectedTotal()
+		wg.Add(2)
+		go k.Trap(func() {
+			defer wg.Done()
+			time.Sleep(acceptAt - (w.Now() - t0))
+			conn, err := b.Accept(id)
+			aerr = err
+			if err == nil {
+				plugins.ServeEcho(conn, id)
+			}
+		})
+		go k.Trap(func() {
+			defer wg.Done()
+			time.Sleep(dialAt - (w.Now() - t0))
+			conn, err := a.Dial(id)
+			derr = err
+			if err == nil {
+				got, derr = plugins.EchoOnce(conn, id, 32)
+				conn.Close()
+			}
+		})
+		done := make(chan struct{})
+		go func() { wg.Wait(); close(done) }()
+		select {
+		case <-done:
+		case <-time.After(60 * time.Second):
+			r.Violate("hang", "op=pair "+ctx+" step="+tag, "accept/dial pair never completed")
+			return
+		}
+		if w.InjectedTotal()-inj > 500*time.Millisecond {
+			return
+		}
+		if aerr != nil || derr != nil {
+			r.Violate("lost-pair", ctx+" step="+tag, fmt.Sprintf("accept at +%v, dial at +%v: accept err=%v, dial err=%v", acceptAt, dialAt, aerr, derr))
+		} else if got != fmt.Sprintf("id=%d", id) {
+			r.Violate("misroute", ctx+" step="+tag, fmt.Sprintf("id %d answered by %q", id, got))
+		}
+	}
+	// control: an ordinary pair works on this session
+	pairOK("control", 3, 0, 10*time.Millisecond)
+	// the failed establishment
+	tFail := w.Now()
+	if err := plugins.AbortStream(a, id, 4); err != nil {
+		r.Violate("setup", "component abort", err.Error())
+		return
+	}
+	time.Sleep(200 * time.Millisecond) // > StreamCloseTimeout: the stream has been reset
+	if conn, err := b.Accept(id); err == nil {
+		// (the ack went out before the reset was seen: no fault this time)
+		conn.Close()
+		w.Probe("component.ack-did-not-fail")
+	} else {
+		w.Probe("component.ack-failed")
+	}
+	// the retry, straddling tFail+5s
+	elapsed := w.Now() - tFail
+	early := 2*time.Second - elapsed
+	late := 5*time.Second + 400*time.Millisecond - elapsed
+	if mode == "dial-first" {
+		pairOK("retry", id, late, early)
+	} else {
+		pairOK("retry", id, early, late)
+	}
+	pairOK("fresh-after", 9, 0, 10*time.Millisecond)
 }
 
 // runBrokerBurst: k establishments issued at the same instant (the accepts
